@@ -174,6 +174,11 @@ var okStates = map[string]bool{
 	"sync.WaitGroup.Wait": true, "select (no cases)": true, "chan receive (nil chan)": true,
 }
 
+// ExtraBusy, when set, is asked about every broker goroutine that is parked in a state which normally counts as
+// "waiting for external input": returning true keeps it busy. (cmd/drive_broker/redis.go: a goroutine in `IO wait`
+// inside the redigo client is waiting for the reply of the in-process fake redis, not for external input.)
+var ExtraBusy func(state, stack string) bool
+
 // busyGoroutines returns descriptions of broker / harness goroutines that are not parked in a wait
 // that only external input (a packet, a timer, a call) can end.
 func busyGoroutines() []string {
@@ -210,7 +215,7 @@ func busyGoroutines() []string {
 		if i := strings.IndexByte(state, ','); i >= 0 { // "select, 2 minutes"
 			state = state[:i]
 		}
-		if okStates[state] {
+		if okStates[state] && !(ExtraBusy != nil && ExtraBusy(state, s)) {
 			continue
 		}
 		fn := ""
